@@ -149,14 +149,10 @@ ValueStore::~ValueStore()
 // ---------------------------------------------------------------------------
 //  ValueStore: Helper methods
 // ---------------------------------------------------------------------------
-void ValueStore::addValue(FieldActivator* const fieldActivator,
+void ValueStore::addValue(FieldActivator* const,
                           IC_Field* const field,
                           DatatypeValidator* const dv,
                           const XMLCh* const value) {
-
-    if (!fieldActivator->getMayMatch(field) && fDoReportError) {
-        fScanner->getValidator()->emitError(XMLValid::IC_FieldMultipleMatch);
-    }
 
     // do we even know this field?
     XMLSize_t index;
@@ -175,6 +171,10 @@ void ValueStore::addValue(FieldActivator* const fieldActivator,
     if (!fValues.getDatatypeValidatorAt(index) &&
         !fValues.getValueAt(index)) {
         fValuesCount++;
+    }
+    else if (fDoReportError) {
+        // the field has selected a value in this scope already
+        fScanner->getValidator()->emitError(XMLValid::IC_FieldMultipleMatch);
     }
 
     fValues.put(field, dv, value);
